@@ -148,6 +148,11 @@ def scenario_case(ctx, case):
         return s
 
     world = vnet.World(default=factory)
+    if case.get('dns_records'):
+        # the name resolves to several addresses per family (round robin):
+        # the handshake still names the host the user asked for
+        world.dns_records = case['dns_records']
+        ctx.label('host_with_several_address_records')
     status_calls, ping_calls = [], []
     out = io.StringIO()
     bad = case.get('bad') is not None or case.get('bad_default')
@@ -452,6 +457,7 @@ def scenario_strategy():
         'entry': st.sampled_from(['connect', 'connect', 'connect', 'status']),
         'hs': st.sampled_from(['default', 'fn', 'false']),
         'hp': st.sampled_from(['default', 'fn', 'false']),
+        'dns_records': st.sampled_from([None, None, 2, 3]),
         'host': hosts, 'port': st.one_of(st.integers(1, 65535),
                                          st.sampled_from([1, 25565, 65535])),
         'token': st.sampled_from([False, False, True, 'late_name',
@@ -487,6 +493,15 @@ def t_every_protocol(ctx, lo, hi):
         scenario_case(ctx, {'allowed': [(other, 'num'), (p, 0)],
                             'default': None, 'reply': reply,
                             'entry': 'connect', 'username': 'u'})
+        scenario_case(ctx, {'allowed': [(other, 'num'), (p, 0)],
+                            'default': None, 'reply': reply,
+                            'entry': 'connect', 'username': 'u',
+                            'host': 'play.example.org', 'dns_records': 2})
+        scenario_case(ctx, {'allowed': [(p, 'num')],
+                            'default': None, 'reply': reply,
+                            'entry': ['connect', 'status'][p % 2],
+                            'username': 'u', 'host': 'mc.example.org',
+                            'dns_records': 3})
         scenario_case(ctx, {'allowed': [(other, 'num')] +
                             ([(sup[5], 'num')] if sup[5] not in (p, other)
                              else [(sup[6], 'num')]),
